@@ -41,7 +41,8 @@ pub enum SWhat {
     Qty { ty: usize, unit: usize, amount: Amt },
     Unit { ty: usize, unit: usize },
     /// several values of one type in one container on one serializer:
-    /// form 0 = Vec<Q>, 1 = (Q, Q), 2 = (Q, Unit), 3 = Option<Q>, 4 = map name -> Q
+    /// form 0 = Vec<Q>, 1 = (Q, Q), 2 = (Q, Unit), 3 = Option<Q>, 4 = map name -> Q,
+    /// 5 = a user struct with the value flattened into it, 6 = a user struct with value fields and Vec<Vec<Q>>
     Group { ty: usize, items: Vec<(usize, Amt)>, form: usize },
 }
 
@@ -72,6 +73,13 @@ pub struct SPlan {
     pub sched: Vec<u8>,
     #[serde(default)]
     pub alloc_seams: bool,
+    /// a soak run: hundreds of thousands of operations; no per-operation log lines
+    /// and no injectivity bookkeeping are kept
+    #[serde(default)]
+    pub lean: bool,
+    /// every thread executes its operation list this many times over (0 = once)
+    #[serde(default)]
+    pub repeat: u64,
 }
 
 fn neighbour(a: Amt, r: &mut Prng) -> Amt {
@@ -116,6 +124,7 @@ fn gen_what(r: &mut Prng, types: &[usize], pool: &mut Vec<Amt>, allow_group: boo
                 0 => r.below(4),
                 1 | 2 => 2,
                 3 => r.below(2),
+                5 => 1,
                 _ => 1 + r.below(3),
             };
             let items = (0..k).map(|_| (r.below(n), gen_amount(r, pool))).collect();
@@ -195,7 +204,7 @@ pub fn generate_with(seed: u64, lite: bool) -> SPlan {
     let n_sched = 8 + r.below(56);
     let sched = (0..n_sched).map(|_| if !sw_switch || r.chance(1, 2) { 0 } else { 1 + r.below(8) as u8 }).collect();
     let alloc_seams = n_threads > 1 && r.chance(1, 2);
-    SPlan { seed, backend: amt::BACKEND.to_string(), threads, sched, alloc_seams }
+    SPlan { seed, backend: amt::BACKEND.to_string(), threads, sched, alloc_seams, lean: false, repeat: 0 }
 }
 
 // ------------------------------------------------------------ systematic plans
@@ -277,5 +286,41 @@ pub fn systematic(index: u64) -> SPlan {
             threads[0].extend(probes);
         }
     }
-    SPlan { seed: index, backend: amt::BACKEND.to_string(), threads, sched, alloc_seams: false }
+    SPlan { seed: index, backend: amt::BACKEND.to_string(), threads, sched, alloc_seams: false, lean: false, repeat: 0 }
+}
+
+// ------------------------------------------------------------------ soak plans
+//
+// A long history in one process and on one thread: plan `i` round-trips values and
+// units of type `i` `ops` times (every unit in turn, varying amounts, mostly by the
+// seam-less string and value-tree routes, now and then through the tree seam).
+// State that only goes wrong after tens of thousands of operations (a counter that
+// wraps, a table rebuilt at a threshold, a buffer that has grown) needs it.
+
+pub fn soak_total() -> u64 {
+    STABLE.len() as u64
+}
+
+pub const SOAK_CYCLE: usize = 2048;
+
+pub fn soak(index: u64, ops: u64) -> SPlan {
+    let ty = index as usize % STABLE.len();
+    let n = (STABLE[ty].n_units)();
+    let mut v = Vec::with_capacity(SOAK_CYCLE);
+    for k in 0..SOAK_CYCLE {
+        let unit = k % n;
+        let what = if k % 61 == 60 {
+            SWhat::Unit { ty, unit }
+        } else {
+            SWhat::Qty { ty, unit, amount: amt::from_milli((k as i64 * 37) % 9001 - 4500) }
+        };
+        let route = match k % 1024 {
+            1023 => Route::Node,
+            x if x % 2 == 0 => Route::JsonString,
+            _ => Route::JsonValue,
+        };
+        v.push(SOp { what, route, ser_fault: None, de_fault: None, nested: None, io_seed: 0, from_model: false });
+    }
+    let repeat = (ops + SOAK_CYCLE as u64 - 1) / SOAK_CYCLE as u64;
+    SPlan { seed: index, backend: amt::BACKEND.to_string(), threads: vec![v], sched: vec![0], alloc_seams: false, lean: true, repeat }
 }
